@@ -2,7 +2,9 @@
 EXTENDS ApiBounds, Json, IOUtils
 VARIABLE done
 Dims == JsonDeserialize(IOEnv.DIMS)
+Auto == JsonDeserialize(IOEnv.AUTO)      \* <<name, kind>> pairs discovered from the implementation's signatures
+All == Programs(Dims) \cup AutoPrograms(Dims, Auto) \cup ColumnPrograms
 Init == done = FALSE
-Next == ~done /\ done' = TRUE /\ ndJsonSerialize(IOEnv.OUT, SetToSeq(Programs(Dims)))
+Next == ~done /\ done' = TRUE /\ ndJsonSerialize(IOEnv.OUT, SetToSeq(All))
 Spec == Init /\ [][Next]_done
 =============================================================================
